@@ -610,7 +610,7 @@ EXTRA["X03"] = {
     "models": [],
     "drives": [
         {"name": "nodes", "cmd": "nodes", "args": {"n": {"quick": 12, "thorough": 400}},
-         "trace_module": "NodesTrace", "trace_consts": dict(ENTRY), "tv_timeout": 3000, "timeout": 7200},
+         "trace_module": "NodesTrace", "trace_consts": dict(ENTRY, GarbageTolerated="TRUE"), "tv_timeout": 3000, "timeout": 7200},
     ],
 }
 
@@ -783,5 +783,31 @@ EXTRA["X05"] = {
         {"name": "liveslots", "custom": _live_slot_traces, "cmd": "-", "args": {},
          "trace_module": "LiveNodeTrace", "trace_consts": {"KeepResyncOnAccept": "TRUE"},
          "trace_invariants": ["SlotsOk", "NoResyncLost"], "tv_timeout": 3000, "timeout": 7200},
+    ],
+}
+
+
+GOSSIP_INV = ["ListeningWhileSyncing", "NothingMuted", "NothingMissed", "Tidy"]
+EXTRA["X06"] = {
+    "level": "model_checking",
+    "rule": "gossip topic lifecycle of a document inside one node (src/engine/gossip.rs GossipState join / quit / progress / broadcast and "
+            "receive_loop): model = all histories (<= 9 steps) of start_sync, leave, local writes, well-formed and undecodable messages "
+            "arriving on the topic, reaping of ended receive loops; implementation = 2-3 complete nodes on the loopback network (the X03 "
+            "drive) in which, in two histories out of three, a member of the topic broadcasts bytes that are no Op before the concurrent "
+            "writes start; a case is one history",
+    "assumptions": ["the trace specification runs with GarbageTolerated = FALSE, which is what receive_loop does (`postcard::from_bytes(..)?` "
+                    "ends the loop, GossipState::progress then forgets the topic): histories with an undecodable message may stay diverged, "
+                    "all others must converge; the design value TRUE is what ListeningWhileSyncing needs - see DESIGN.md 12.6",
+                    "timing: a history with an injected message is given 8 s to converge, the others 60 s (as in X03)"],
+    "models": [
+        {"name": "gossip", "module": "Gossip", "workers": 4, "consts": {"MaxSteps": 9, "GarbageTolerated": "TRUE"}, "invariants": GOSSIP_INV},
+    ],
+    "sensitivity": [{"base": "gossip", "flip": {"GarbageTolerated": "FALSE"}}],
+    "drives": [
+        {"name": "nodes-garbage", "cmd": "nodes", "args": {"n": {"quick": 6, "thorough": 60}, "garbage": 1},
+         "trace_module": "NodesTrace", "trace_consts": dict(ENTRY, GarbageTolerated="FALSE"), "tv_timeout": 3000, "timeout": 7200},
+        # control: the same extra subscription without the undecodable message - every history must converge
+        {"name": "nodes-control", "cmd": "nodes", "args": {"n": {"quick": 6, "thorough": 60}, "garbage": 2},
+         "trace_module": "NodesTrace", "trace_consts": dict(ENTRY, GarbageTolerated="TRUE"), "tv_timeout": 3000, "timeout": 7200},
     ],
 }
